@@ -550,13 +550,13 @@ pub fn c20_one(c: &mut Ctx, fam: Fam, m: &Malformed) {
 
 pub fn c20(ctx: &mut Ctx, layer: &str) {
     let n_hosts: usize = match layer {
-        "miri" => 6,
+        "miri" => if ctx.thorough { 800 } else { 48 },
         "vg" => 300,
         _ => {
             if ctx.thorough {
                 400_000
             } else {
-                10_000
+                60_000
             }
         }
     };
@@ -720,13 +720,13 @@ pub const ALL_RULES: &[&str] = &[
 
 pub fn c04(ctx: &mut Ctx, layer: &str) {
     let n: usize = match layer {
-        "miri" => 40,
+        "miri" => if ctx.thorough { 10_000 } else { 600 },
         "vg" => 20_000,
         _ => {
             if ctx.thorough {
                 30_000_000
             } else {
-                600_000
+                5_000_000
             }
         }
     };
